@@ -5,7 +5,7 @@ import SleapVerif.Model.TrackFeatures
 Line-protocol driver for C09 / C10 (shared).  Stateful: one tracker at a time.
 
 ```
-init <fw|lq> <window> <thr> <h|g> <mean|max> <fixA> <fixB> <fixC>
+init <fw|lq> <window> <thr> <h|g> <mean|max> <fixA> <fixB> <fixC> <fixD>
 frame <F> <n> s_1 … s_n  <T> (i f j v)*T  <M> [rows cols e_11 … ]  <K> (r c)*K
 ```
 `s_i` instance scores; the table holds every raw score the implementation computed for
@@ -37,10 +37,10 @@ def pInit : P DState := do
   let thr ← rat
   let mt ← tok
   let rd ← tok
-  let a ← bool; let b ← bool; let c ← bool
+  let a ← bool; let b ← bool; let c ← bool; let d ← bool
   pure { isLQ := m == "lq",
          cfg := ⟨w, thr, if mt == "g" then .greedy else .hungarian,
-                 if rd == "max" then .max else .mean, ⟨a, b, c⟩⟩ }
+                 if rd == "max" then .max else .mean, ⟨a, b, c, d⟩⟩ }
 
 structure FrameIn where
   f : Nat
